@@ -108,3 +108,9 @@ def sdo_getitem():
     ok = ok and isinstance(sdo[0x2002], SdoArray) and sdo[0x2002][1].od is a1 and sdo["List.Element"].od is a1
     ok = ok and sdo[0x2000].index == 0x2000 and sdo[0x2001][1].subindex == 1 and sdo["Group.First member"].name == "Group.First member"
     return ok
+
+
+def emcy_reset_then(consumer, d1, d2):
+    consumer.reset()
+    consumer.on_emcy(0x81, d1, 1.0)
+    consumer.on_emcy(0x81, d2, 2.0)
